@@ -7,6 +7,8 @@ import H4.Driver.Atom
 import H4.Driver.Chunk
 import H4.Driver.VGroup
 import H4.Driver.Annot
+import H4.Driver.Il
+import H4.Driver.Vs
 open H4.Driver
 
 /-- state of every stateful engine; reset at each `CASE` line -/
@@ -17,6 +19,7 @@ structure World where
   chunk : ChunkSt := {}
   vg : H4.VGroup.File := {}
   an : H4.Annot.AnState := {}
+  vs : VsState := {}
 
 def stepWorld (w : World) (engine : String) (args : List String) : World × String :=
   match engine with
@@ -27,6 +30,8 @@ def stepWorld (w : World) (engine : String) (args : List String) : World × Stri
   | "chunk" => let r := stepChunk w.chunk args; ({ w with chunk := r.1 }, r.2)
   | "an" => let (v, o) := stepAn w.an args; ({ w with an := v }, o)
   | "vg" => let (v, o) := stepVg w.vg args; ({ w with vg := v }, o)
+  | "il" => (w, stepIl args)
+  | "vs" => let (s, out) := stepVs w.vs args; ({ w with vs := s }, out)
   | "hp" => let (h, r) := stepHp w.hp args; ({ w with hp := h }, r)
   | _ => (w, "bad-engine")
 
